@@ -30,7 +30,7 @@ def run(pid, files=("tests",)):
         env[k] = "1"
     env["NUMBA_BOUNDSCHECK"] = "0"          # the suite's own timing; sanitizer runs elsewhere
     if env.get("NUMBA_CACHE_DIR"):          # never share a JIT cache with bounds-checked runs
-        env["NUMBA_CACHE_DIR"] = re.sub(r"-bc[01]$", "-pt", env["NUMBA_CACHE_DIR"])
+        env["NUMBA_CACHE_DIR"] = env["NUMBA_CACHE_DIR"].rstrip("/") + "-pt"
     try:
         r = subprocess.run([sys.executable, "-m", "pytest", "-q", "-p", "no:cacheprovider",
                             "-p", "vf.pytest_plugin", "--continue-on-collection-errors",
